@@ -963,7 +963,7 @@ func steps() []stepDef {
 		{"heartbeat-manual", 2, stepHeartbeatCall},
 		{"heartbeat-bad-rate", 2, stepHeartbeatBadRate},
 		{"heartbeat-ping", 1, stepHeartbeatWait},
-	}, append(append(authIOSteps(), replyFaultSteps()...), bearerSteps()...)...)
+	}, append(append(append(authIOSteps(), replyFaultSteps()...), bearerSteps()...), setupSteps()...)...)
 }
 
 // ---------- monitors ----------
@@ -1353,7 +1353,7 @@ func main() {
 			perClass[d.class] += time.Since(t0)
 			core.Add("evaluations", 1)
 			core.Add("steps/"+d.class, 1)
-			if os.Getenv("C15_DEBUG") == "2" && (strings.HasPrefix(d.class, "auth-re") || strings.HasPrefix(d.class, "reply-fault") || strings.HasPrefix(d.class, "bearer-") || strings.HasPrefix(d.class, "checker-")) {
+			if os.Getenv("C15_DEBUG") == "2" && (strings.HasPrefix(d.class, "auth-re") || strings.HasPrefix(d.class, "reply-fault") || strings.HasPrefix(d.class, "bearer-") || strings.HasPrefix(d.class, "checker-") || strings.HasPrefix(d.class, "setup-")) {
 				fmt.Fprintf(os.Stderr, "note %s: %s\n", d.class, res.note)
 			}
 			if res.effective {
